@@ -82,7 +82,7 @@ struct C11 : Scenario {
     Json generate(Rng& rng, const std::string& tier, std::uint64_t) override {
         Json p = Json::object();
         p["scenario"] = "S-RUN";
-        GenOpts o; o.max_steps = tier == "thorough" ? 8 : 6; o.max_actions = 2; o.max_udq = 2; o.restart_safe_conditions = false; o.esmry = true;
+        GenOpts o; o.max_steps = tier == "thorough" ? 8 : 6; o.max_actions = 2; o.max_udq = 2; o.restart_safe_conditions = false; o.esmry = true; o.late_edits = true; o.reparent_groups = true;
         p["model_seed"] = static_cast<long long>(rng.next() >> 8); p["gen"] = o.to_json(); p["physics_seed"] = static_cast<long long>(rng.next() >> 16);
         Json ms = Json::array();
         for (int s = 0; s < o.max_steps; ++s) { Json f = Json::array(); int n = static_cast<int>(rng.range(1, 3)); for (int k = 1; k < n; ++k) f.push(static_cast<double>(k) / n); f.push(1.0); ms.push(f); }
@@ -121,6 +121,7 @@ struct C11 : Scenario {
         fs::begin_run(root);
         Model m = generate_model(static_cast<std::uint64_t>(plan.geti("model_seed")), GenOpts::from_json(plan.at("gen")));
         if (plan.has("drops")) apply_drops(m, plan.at("drops"));
+        kw_histogram(m, r.counters);
         RunCfg cfg; cfg.physics_seed = static_cast<std::uint64_t>(plan.geti("physics_seed")); cfg.esmry = !m.fmtout;
         for (size_t k = 0; k < plan.at("ministeps").size(); ++k) { std::vector<double> f; for (size_t q = 0; q < plan.at("ministeps")[k].size(); ++q) f.push_back(plan.at("ministeps")[k][q].as_d()); cfg.ministeps.push_back(f); }
         cfg.wall_advance = {20.0};
